@@ -144,6 +144,12 @@ def check(gen, run):
     if run.status != "ok":
         v("socket-scenario-hang", status=run.status)
         return viol, obs
+    mutated = [d for _, _, k, d in log.events if k == "NET.write_mutated"]
+    if mutated:
+        # what was handed to the transport while the peer was not reading was changed before
+        # it could be sent: the bytes on the wire are not the frame of that message
+        v("bytes-changed-between-write-and-transmission", conn=mutated[0]["conn"],
+          written=mutated[0]["written"], sent=mutated[0]["sent"], count=len(mutated))
     by = S.frames_by_conn(gen, log)
     # connection intervals by seq
     opens, closes = {}, {}
